@@ -18,9 +18,9 @@ ASSUMPTIONS = ["Intel's documented semantics of the 16 AVX2 intrinsics (models i
 def run(F, rep):
     rep.engines.update(["E4", "E2-BV", "E2-DT"])
     thorough = rep.tier == "thorough"
-    dt_strings.byte_tables(F, rep, "C16.1")
-    dt_strings.avx_kernels(F, rep, "C16.2", thorough=thorough)
-    dt_strings.from_acgt_bytes_lemma(F, rep, "C16.3", maxn=140 if thorough else 100)
-    dt_strings.dna_only_runs(F, rep, "C16.4", maxn=7 if thorough else 5)
-    dt_strings.hashn_table(F, rep, "C16.5")
-    dt_strings.from_str_lemmas(F, rep, "C16.6")
+    rep.run(dt_strings.byte_tables, F, rep, "C16.1")
+    rep.run(dt_strings.avx_kernels, F, rep, "C16.2", thorough=thorough)
+    rep.run(dt_strings.from_acgt_bytes_lemma, F, rep, "C16.3", maxn=140 if thorough else 100)
+    rep.run(dt_strings.dna_only_runs, F, rep, "C16.4", maxn=7 if thorough else 5)
+    rep.run(dt_strings.hashn_table, F, rep, "C16.5")
+    rep.run(dt_strings.from_str_lemmas, F, rep, "C16.6")
